@@ -416,6 +416,8 @@ pub struct Inst {
     pub query_answered: std::collections::HashSet<[u8; 32]>,
     /// nodes the running lookup certainly learned of from answers (see `nodes_packet`)
     pub query_learned: std::collections::HashSet<[u8; 32]>,
+    /// profile C17race: while a PONG is processed, the application writes to the local record from a thread of its own
+    pub race: bool,
     pub query_lost: bool,
     pub query_dup: Vec<[u8; 32]>,
     /// `auto_nat_listen_duration` as the built configuration has it
@@ -535,6 +537,7 @@ impl Inst {
             query_epoch: 0,
             query_answered: Default::default(),
             query_learned: Default::default(),
+            race: false,
             query_lost: false,
             query_dup: Vec::new(),
             auto_nat,
@@ -1815,6 +1818,14 @@ impl Runner for ServiceRunner {
                 out.push(format!("!OP sidle {} t={}{}", x, tok, sfx));
                 self.finish(x, "sidle", None, so, None, out, stats);
             }
+            // from now on the application writes to the local record (a field of its own, through the shared
+            // `external_enr`) from another thread while PONGs are processed
+            ["srace", _] => {
+                self.insts.get_mut(&x).unwrap().race = true;
+                stats.bump("s.c17.application-writes-concurrently");
+                out.push(format!("!OP srace {}", x));
+                out.push("ok".into());
+            }
             // the ban lists already hold N entries that are in force (an operator's block list, an hour of
             // rate-limit bans)
             ["sbanfill", _, n] => {
@@ -2125,8 +2136,69 @@ impl Runner for ServiceRunner {
                             (processed, conn_out, inst.require_more(a.is_ipv6()))
                         };
                         let tok = self.tok_ms();
+                        let racing = self.insts[&x].race;
+                        let racer = if racing {
+                            use std::sync::atomic::{AtomicBool, AtomicU64, Ordering};
+                            let arc = self.insts[&x].discv5.external_enr();
+                            let key = key_of(self.insts[&x].local_seed);
+                            let stop = std::sync::Arc::new(AtomicBool::new(false));
+                            let done = std::sync::Arc::new(AtomicU64::new(0));
+                            let (st, dn) = (stop.clone(), done.clone());
+                            let h = std::thread::spawn(move || {
+                                let (mut undone, mut same_seq) = (false, false);
+                                let mut i: u64 = 0;
+                                let mut last: Option<(u64, Vec<u8>)> = None;
+                                let check = |e: &Enr, i: u64, last: &Option<(u64, Vec<u8>)>, undone: &mut bool, same_seq: &mut bool| {
+                                    if let Some((sq, sig)) = last {
+                                        // only the application writes this field: it still holds what was written last
+                                        if !matches!(e.get_decodable::<u64>("ctr"), Some(Ok(v)) if v == i) {
+                                            *undone = true;
+                                        }
+                                        if e.seq() == *sq && e.signature() != &sig[..] {
+                                            *same_seq = true;
+                                        }
+                                        if e.seq() < *sq {
+                                            *same_seq = true;
+                                        }
+                                    }
+                                };
+                                loop {
+                                    let halt = st.load(Ordering::SeqCst);
+                                    {
+                                        let e = arc.read();
+                                        check(&e, i, &last, &mut undone, &mut same_seq);
+                                    }
+                                    if halt {
+                                        break;
+                                    }
+                                    i += 1;
+                                    let mut w = arc.write();
+                                    let _ = w.insert("ctr", &i, &key);
+                                    last = Some((w.seq(), w.signature().to_vec()));
+                                    drop(w);
+                                    dn.fetch_add(1, Ordering::SeqCst);
+                                }
+                                (undone, same_seq)
+                            });
+                            // (the writer is at work before the PONG goes in)
+                            while done.load(Ordering::SeqCst) < 3 {
+                                std::thread::yield_now();
+                            }
+                            Some((stop, h))
+                        } else { None };
                         let _ = self.insts[&x].hout.try_send(HandlerOut::Response(from.clone(), Box::new(resp)));
                         let so = self.observe(x, false, false);
+                        if let Some((stop, h)) = racer {
+                            stop.store(true, std::sync::atomic::Ordering::SeqCst);
+                            if let Ok((undone, same_seq)) = h.join() {
+                                if undone {
+                                    out.push("!MON C17 application-s-change-to-the-record-undone-by-the-vote-driven-update".into());
+                                }
+                                if same_seq {
+                                    out.push("!MON C17 two-different-records-under-one-sequence-number".into());
+                                }
+                            }
+                        }
                         let inst = self.insts.get_mut(&x).unwrap();
                         if inst.reqs[k - 1].outstanding {
                             inst.reqs[k - 1].outstanding = false;
@@ -2170,7 +2242,9 @@ impl Runner for ServiceRunner {
                             if s6a != s6b && (s6a.is_none() || s6a != inst.ledger_majority(true)) {
                                 out.push(format!("!MON C17 socket-changed-without-clear-majority family=6 new={:?}", s6a));
                             }
-                            if !eligible && local_after != local_before {
+                            // (with the application writing at the same time, only the sockets are the vote's business)
+                            let changed = if racing { s4a != s4b || s6a != s6b } else { local_after != local_before };
+                            if !eligible && changed {
                                 out.push("!MON C17 record-changed-by-ineligible-vote".into());
                             }
                             // a clear majority that differs from the advertised socket must be adopted
@@ -2182,7 +2256,10 @@ impl Runner for ServiceRunner {
                                 }
                             }
                         }
-                        if local_after != local_before {
+                        let changed_now = if racing {
+                            local_after.udp4_socket() != local_before.udp4_socket() || local_after.udp6_socket() != local_before.udp6_socket()
+                        } else { local_after != local_before };
+                        if changed_now {
                             stats.bump("s.c17.local-record-changed");
                             vote.push_str(&format!(" local={}", rec_abs(&local_after, f)));
                             if !local_after.verify() {
@@ -3416,6 +3493,14 @@ fn gen_c17_expiry(rng: &mut Rng, ops: &mut Vec<String>, stats: &mut Stats) {
 
 pub fn gen_case(rng: &mut Rng, tier: &str, profile: &str, stats: &mut Stats) -> Vec<String> {
     let mut ops = Vec::new();
+    if profile == "C17race" {
+        // the vote scenarios, with the application writing to the local record from its own thread
+        let mut ops = Vec::new();
+        gen_c17(rng, &mut ops, stats);
+        let at = ops.iter().position(|o| o.starts_with("snew A")).map(|i| i + 1).unwrap_or(0);
+        ops.insert(at, "srace A".into());
+        return ops;
+    }
     if profile == "C17expiry" {
         gen_c17_expiry(rng, &mut ops, stats);
         return ops;
